@@ -78,14 +78,17 @@ Print Assumptions C15_from_storage_independent.
 Theorem C15_branches :
   (forall np, (is_serial P_refine np = true <-> np = NPInt 1) /\
               (forall progress, is_serial (P_storage progress) np = true <-> np = NPInt 1)) /\
-  (forall np ncpu, workers P_refine np ncpu = match np with NPAuto => ncpu | NPInt n => n end /\
-                   (forall progress, workers (P_storage progress) np ncpu
-                                     = match np with NPAuto => ncpu | NPInt n => n end)) /\
+  (forall np ncpu ntasks, workers P_refine np ncpu ntasks = match np with NPAuto => ncpu | NPInt n => n end /\
+                          (forall progress, workers (P_storage progress) np ncpu ntasks
+                                            = match np with NPAuto => ncpu | NPInt n => n end)) /\
+  (forall np ncpu ntasks, usable np ncpu ->
+                          1 <= workers P_refine np ncpu ntasks /\
+                          forall progress, 1 <= workers (P_storage progress) np ncpu ntasks) /\
   (rd_serial_iter = rd_parallel_iter /\ fs_serial_iter = fs_parallel_iter /\ fs_times_from = fs_serial_iter) /\
   (p_gather P_refine = GatherByIndex /\ forall progress, p_gather (P_storage progress) = GatherByIndex).
 Proof.
-  exact (conj serial_iff_one (conj workers_rule (conj iterate_same_argument
-          (conj (eq_refl : p_gather P_refine = GatherByIndex) storage_gathers_by_index)))).
+  exact (conj serial_iff_one (conj workers_rule (conj workers_positive (conj iterate_same_argument
+          (conj (eq_refl : p_gather P_refine = GatherByIndex) storage_gathers_by_index))))).
 Qed.
 Print Assumptions C15_branches.
 
@@ -125,6 +128,39 @@ Theorem C15_shared_options_refuted :
       = Done ([Some 1; Some 2], None).
 Proof. exact shared_options_refuted. Qed.
 Print Assumptions C15_shared_options_refuted.
+
+(* refine_droplet works on a copy of the candidate it is handed (generated fact refine_copies_candidate): for
+   every usable process count and schedule the results are the serial map and the caller's candidate list is
+   unchanged -- by the serial branch, which hands the caller's objects to the task, and by the pool *)
+Theorem C15_refine_candidates_par_eq_ser :
+  forall (candidate outcome_t : Type) (is_none : outcome_t -> bool)
+         (task : string -> candidate -> outcome_t * candidate)
+         (np : nproc) (ncpu : nat) (sigma : list nat) (cands : list candidate),
+    usable np ncpu ->
+    refine_droplets_with_candidates candidate outcome_t is_none task np ncpu sigma cands
+    = Done (filter (fun r => negb (is_none r)) (map (fun c => fst (task rd_serial_call c)) cands), cands).
+Proof. exact refine_candidates_par_eq_ser. Qed.
+Print Assumptions C15_refine_candidates_par_eq_ser.
+
+(* what it excludes: a task that fits the object it is handed in place *)
+Theorem C15_shared_arguments_refuted :
+  exists (sigma : list nat),
+    mapped_with_arguments none_nat plain_glue false in_place_task (NPInt 1) 4 sigma [1; 2]
+      = Done ([Some 11; Some 12], [11; 12]) /\
+    mapped_with_arguments none_nat plain_glue false in_place_task (NPInt 2) 4 sigma [1; 2]
+      = Done ([Some 11; Some 12], [1; 2]).
+Proof. exact shared_arguments_refuted. Qed.
+Print Assumptions C15_shared_arguments_refuted.
+
+(* ... and a worker count min(cpus, number of tasks) without the lower bound 1: "auto" on an empty task list
+   is rejected by the pool where an explicit count returns the empty result *)
+Theorem C15_capped_workers_refuted :
+  let P := {| p_serial_when := 1; p_max_workers := MWAutoCapped; p_gather := GatherByIndex;
+              p_serial_filters_none := true; p_parallel_filters_none := true |} in
+  mapped none_nat P (fun x : nat => Some x) (fun x => Some x) NPAuto 8 [] [] = Failed BadWorkerCount /\
+  mapped none_nat P (fun x : nat => Some x) (fun x => Some x) (NPInt 2) 8 [] [] = Done [].
+Proof. exact capped_workers_refuted. Qed.
+Print Assumptions C15_capped_workers_refuted.
 
 (* what the theorems exclude: a gatherer that returns results in completion order *)
 Theorem C15_completion_order_refuted :
